@@ -11,7 +11,7 @@ import (
 )
 
 func init() {
-	register("C14", c14Chunk, func(e *Env) { serveLoop(e, "C14") }, c14SkipErrors, c14Bound, c14Prefetch, c14Drain, c14EOF, c13Window, c13Remainder, c13Accumulate, c14SkipBound, c14Identity, c18Drain, c09Pools, c14KeepStream, c14Clamp)
+	register("C14", c14Chunk, func(e *Env) { serveLoop(e, "C14") }, c14SkipErrors, c14Bound, c14Prefetch, c14Drain, c14EOF, c13Window, c13Remainder, c13Accumulate, c14SkipBound, c14Identity, c18Drain, c09Pools, c14KeepStream, c14Clamp, c14SkipWait)
 }
 
 const pkgUtils = Mod + "/pkg/common/utils"
@@ -84,26 +84,64 @@ func c14Chunk(e *Env) {
 				return true
 			})
 		}
-		isSkip := func(f *types.Func) bool {
+		isRawSkip := func(f *types.Func) bool {
 			return f != nil && f.Name() == "Skip" && f.Pkg() != nil && f.Pkg().Path() == pkgNetwork
 		}
+		// a skip helper — func(r network.Reader, n int) error in this package whose body skips on
+		// r (a loop that waits for the bytes) — is one skip event of amount n, not inlined
+		skipHelper := func(f *types.Func) bool {
+			if f == nil || f.Pkg() != fi.Obj.Pkg() {
+				return false
+			}
+			sig, _ := f.Type().(*types.Signature)
+			if sig == nil || sig.Recv() != nil || sig.Params().Len() != 2 || sig.Results().Len() != 1 {
+				return false
+			}
+			if b, ok := sig.Params().At(1).Type().Underlying().(*types.Basic); !ok || b.Kind() != types.Int {
+				return false
+			}
+			if _, isIface := sig.Params().At(0).Type().Underlying().(*types.Interface); !isIface {
+				return false
+			}
+			d := w.DeclOf(f)
+			if d == nil || d.Decl.Body == nil {
+				return false
+			}
+			hit := false
+			ast.Inspect(d.Decl.Body, func(n ast.Node) bool {
+				if c, ok := n.(*ast.CallExpr); ok && isRawSkip(calleeOf(d.Pkg.TypesInfo, c)) {
+					if se, ok := unparen(c.Fun).(*ast.SelectorExpr); ok && usedVar(d.Pkg.TypesInfo, se.X) == sig.Params().At(0) {
+						hit = true
+					}
+				}
+				return true
+			})
+			return hit
+		}
+		isSkip := func(f *types.Func) bool { return isRawSkip(f) || skipHelper(f) }
+		baseInline := inlineWhen(info, func(f *types.Func) bool {
+			return isParse(f) || isSkip(f) || esp.Is(f, pkgUtils, "", "SkipCRLF")
+		}, func(n ast.Node) bool {
+			switch x := n.(type) {
+			case *ast.AssignStmt:
+				for _, l := range x.Lhs {
+					if isField(l) {
+						return true
+					}
+				}
+			case *ast.IncDecStmt:
+				return isField(x.X)
+			}
+			return false
+		})
 		rl := &esp.Rule{Name: rule, Init: "U",
 			Track: func(k string) bool { return k == "err == nil" },
-			Inline: inlineWhen(info, func(f *types.Func) bool {
-				return isParse(f) || isSkip(f) || esp.Is(f, pkgUtils, "", "SkipCRLF")
-			}, func(n ast.Node) bool {
-				switch x := n.(type) {
-				case *ast.AssignStmt:
-					for _, l := range x.Lhs {
-						if isField(l) {
-							return true
-						}
-					}
-				case *ast.IncDecStmt:
-					return isField(x.X)
+			Inline: func(f *types.Func, d *ast.FuncDecl) bool {
+				if skipHelper(f) {
+					return false
 				}
-				return false
-			}),
+				return baseInline(f, d)
+			},
 			Node: func(c *esp.Ctx, n ast.Node) {
 				switch x := n.(type) {
 				case *ast.AssignStmt:
@@ -141,8 +179,8 @@ func c14Chunk(e *Env) {
 						c.Violate(call.Pos(), fname+":"+c.SiteKey(call)+":not-at-boundary", "a chunk-size line is parsed while the stream is not known to be at a chunk boundary (state "+c.S.TS+"): leftover chunk data is interpreted as chunk framing and the bytes after it as the next request")
 					}
 					c.S.TS = "L"
-				case isSkip(f) && len(call.Args) == 1:
-					a := call.Args[0]
+				case isSkip(f) && (len(call.Args) == 1 || skipHelper(f)):
+					a := call.Args[len(call.Args)-1]
 					switch {
 					case c.S.TS == "L" && sizeVar != nil && (usedVar(info, a) == sizeVar || rootVar(c, info, a) == sizeVar):
 						c.S.TS = "C"
